@@ -1,4 +1,4 @@
-import AranyaV.Proofs.DiskHist
+import AranyaV.Proofs.DiskFault
 /-!
 # C15 — File-backed graph storage survives crashes
 
@@ -288,6 +288,90 @@ theorem no_future_data_multi (hL : L.OK) (segs : List Segment) (st : HState)
   obtain ⟨rec, _, ho', he, _⟩ := reachable_durable_multi hL segs st hh hwf h s hck hbd hwfs w ho o hr
   have : rec.off < rec.end_ := by unfold Rec.end_; omega
   omega
+
+/-! ## I/O errors (`Model/DiskFault`): every `pwrite` / barrier / `fallocate` may fail
+
+The adversary picks, per storage call, the failing I/O call and how many bytes of a failing
+`write_all` were still written (`Fault`).  `Writer.stepF` transliterates which in-memory fields
+are already updated when the error propagates.  Proved for faults anywhere except inside a root
+write (`EarlyRun`); a failing root `pwrite` / final barrier is modelled, run by the driver and
+compared with the real code on injected failures, but its proof is open (hence `_partial`). -/
+
+/-- **recover_cases_io_partial.**  Run from `create` with injected I/O errors (none of them inside
+a root write), crash after any number `n` of I/O calls, any `χ`: `open` fails only if no commit
+has returned `Ok`, else returns the last commit that returned `Ok` or the commit in progress —
+a failed call never corrupts the durable state and a commit that reported success is never lost.
+
+Full statement (open): the same without `EarlyRun`, with the third alternative "or the root of a
+commit that reported an error after its root write was issued, whose generation is larger than
+that of the last `Ok` commit". -/
+theorem recover_cases_io_partial (hL : L.OK) (cs : List (Call × Fault))
+    (he : EarlyRun L ck (Writer.create L).1 cs) (hh : HypsF L ck (Writer.create L).1 Disk.empty cs)
+    (n : Nat) (χ : List (List Bool)) :
+    match Writer.open L ck ((Disk.empty.execAll ((traceF L ck (Writer.create L).1 cs).take n)).crash χ) with
+    | none => doneFromF L ck (Writer.create L).1 none cs n = none
+    | some w => some w.root = doneFromF L ck (Writer.create L).1 none cs n ∨
+        some w.root = progFromF L ck (Writer.create L).1 cs n :=
+  run_safeF_partial hL cs _ _ _ _ _ (create_inv hL) he hh n χ
+
+/-- one storage call with an early fault (or none) re-establishes the writer invariant, with the
+committed root changed only by a commit that returned `Ok` -/
+theorem failed_call_keeps_invariant_partial (hL : L.OK) {w : Writer} {d : Disk} {done : Option Root}
+    {D : Nat} {recs : List Rec} (h : WInv L ck w d done D recs) (c : Call) (f : Fault)
+    (he : f.Early L ck w c) (hbd : Bounded L ck w [c]) :
+    ∃ D' recs', WInv L ck (w.stepF L ck c f).1 (d.execAll (w.stepF L ck c f).2.1)
+      (doneAfterF L ck w c f done) D' recs' ∧ (∀ r ∈ recs, r ∈ recs') :=
+  stepF_inv_partial hL h c f he hbd
+
+/-! ## short files: a read beyond EOF is an invalid root, never a panic
+
+`Writer.openSz` is `Writer::open` on a file of `size` bytes (`read_exact` fails when the range is
+not inside the file; `open` maps every load error to "slot invalid").  The functions are total —
+there is no panic outcome to reach. -/
+
+/-- a short file can only hide a root, never invent one -/
+theorem loadValidSz_sub (img : Img) (size off : Nat) (r : Root)
+    (h : loadValidSz ck img size off = some r) : loadValid ck img off = some r := by
+  unfold loadValidSz loadRootSz at h
+  unfold loadValid
+  split at h
+  · rename_i r0 h0
+    split at h0
+    · rw [h0]; exact h
+    · cases h0
+  · cases h
+
+/-- a slot that is entirely inside the file loads as in the unbounded model -/
+theorem loadValidSz_eq (img : Img) (size off : Nat) (hlen : lenOK img off) (hs : off + rootMax ≤ size) :
+    loadValidSz ck img size off = loadValid ck img off := by
+  unfold lenOK at hlen
+  unfold loadValidSz loadRootSz loadValid
+  rw [if_pos ⟨by unfold rootMax at hs; omega, by omega⟩]
+  cases loadRoot img off <;> rfl
+
+/-- a slot whose length prefix or body reaches beyond EOF is invalid -/
+theorem loadValidSz_short (img : Img) (size off : Nat) (h : size < off + 4 + lenAt img off) :
+    loadValidSz ck img size off = none := by
+  unfold loadValidSz loadRootSz
+  rw [if_neg (by omega)]
+
+/-- **open_short_file.**  If the file still contains both root slots (always the case once
+`create`'s `fallocate` + `fsync` returned) `open` is unaffected by the file size; in general the
+root it returns also validates in the unbounded image. -/
+theorem open_short_file (img : Img) (size : Nat) (hA : lenOK img L.rootA) (hB : lenOK img L.rootB)
+    (hs : L.rootA + rootMax ≤ size ∧ L.rootB + rootMax ≤ size) :
+    Writer.openSz L ck img size = Writer.open L ck img := by
+  unfold Writer.openSz Writer.open
+  rw [loadValidSz_eq img size _ hA hs.1, loadValidSz_eq img size _ hB hs.2]
+  cases loadValid ck img L.rootA <;> cases loadValid ck img L.rootB <;> rfl
+
+/-- a file that ends before the root slots (crash before `create`'s `fallocate` was durable) does
+not open, whatever it contains -/
+theorem open_truncated_none (hL : L.OK) (img : Img) (size : Nat) (h : size < L.rootA + 4) :
+    Writer.openSz L ck img size = none := by
+  have hb := hL.a_b
+  unfold Writer.openSz
+  rw [loadValidSz_short img size L.rootA (by omega), loadValidSz_short img size L.rootB (by omega)]
 
 /-! ## the theorems for the constants of the current source -/
 
